@@ -211,6 +211,7 @@ type c02HTTP struct {
 	sid       string
 	version   string
 	recs      []*httptest.ResponseRecorder
+	framed    map[*httptest.ResponseRecorder]*framedWriter
 	pending   []chan struct{}
 }
 
@@ -247,10 +248,15 @@ func (d *c02HTTP) post(body string, withVersion bool) *httptest.ResponseRecorder
 		r.Header.Set("Mcp-Protocol-Version", d.version)
 	}
 	w := httptest.NewRecorder()
+	fw := newFramedWriter(w)
+	if d.framed == nil {
+		d.framed = map[*httptest.ResponseRecorder]*framedWriter{}
+	}
+	d.framed[w] = fw
 	done := make(chan struct{})
 	go func() {
 		defer close(done)
-		d.h.ServeHTTP(w, r)
+		d.h.ServeHTTP(fw, r)
 	}()
 	synctest.Wait()
 	select {
@@ -279,8 +285,13 @@ func (d *c02HTTP) collect() ([][]byte, []int, error) {
 	var chunks [][]byte
 	var statuses []int
 	for _, w := range d.recs {
-		chunks = append(chunks, c02Bodies(w)...)
 		statuses = append(statuses, w.Code)
+		if fw := d.framed[w]; fw != nil && fw.broken() {
+			// the body does not match the Content-Length the handler declared: net/http refuses the
+			// write (or cuts the connection), the client reads no complete body
+			continue
+		}
+		chunks = append(chunks, c02Bodies(w)...)
 	}
 	return chunks, statuses, nil
 }
